@@ -18,6 +18,11 @@ Local Open Scope Z_scope.
 
 Definition key (n np D X : Z) : Z := Z.min ((X * np) / (D * n)) (np - 1).
 
+(* the stripe of a position that was NOT wrapped into [0, box): int() truncates toward zero and a negative key indexes the
+   per-thread histogram from the end (outside the precondition of every theorem; see Examples.wrap_is_necessary) *)
+Definition key_unwrapped (n np D X : Z) : Z :=
+  let k := Z.min (Z.quot (X * np) (D * n)) (np - 1) in if k <? 0 then k + np else k.
+
 Definition rhe (D P : Z) : Z :=
   let f := P / D in
   let rem2 := 2 * (P - f * D) in
